@@ -37,7 +37,7 @@ def generate(rng, tier):
         pool = rng.sample(CODES, rng.randint(1, 4))
         yield {"fam": "infer", "tags": [rng.choice(pool) for _ in range(n)], "variant": rng.randint(0, 3)}
     for i in range(200 if tier == "quick" else 4000):
-        yield {"fam": "result", "op": rng.choice(["add", "mul", "truediv", "radd", "join", "aggregate", "csv", "neg", "window"]),
+        yield {"fam": "result", "op": rng.choice(["add", "mul", "truediv", "radd", "join", "aggregate", "csv", "neg", "window", "scalar", "scalar", "rscalar", "tscalar"]),
                "a": [rng.choice([0, 1, 2, 3]) for _ in range(rng.randint(1, 5))], "seed": rng.randint(0, 10**6)}
 
 
@@ -82,6 +82,19 @@ def _result(spec):
         if op in ("add", "mul", "truediv"):
             import operator
             r = getattr(operator, op)(Vector(a), Vector([x if x not in (0, False, 0.0) or op != "truediv" else 1 for x in b]))
+        elif op in ("scalar", "rscalar", "tscalar"):
+            # every arithmetic operator with a scalar operand (negative, zero-free, float, bool), direct and reflected,
+            # on vectors and on table columns: the result is typed by inference over its values
+            import operator
+            f = getattr(operator, rng.choice(["add", "sub", "mul", "truediv", "floordiv", "mod", "pow"]))
+            k = rng.choice([-1, -2, 2, 3, 0.5, True, 1.5])
+            aa = [x if x not in (0, False, 0.0) else 1 for x in a]
+            if op == "scalar":
+                r = f(Vector(aa), k)
+            elif op == "rscalar":
+                r = f(k, Vector(aa))
+            else:
+                r = rng.choice(f(Table({"p": aa, "q": aa}), k).cols())
         elif op == "radd":
             r = rng.choice([1, 1.5, True]) + Vector(a)
         elif op == "neg":
